@@ -333,8 +333,13 @@ func (c *Ctx) growRules() {
 			}
 			bound := false
 			if iff, ok := l.Header.Instrs[len(l.Header.Instrs)-1].(*ssa.If); ok {
-				if bo, ok := iff.Cond.(*ssa.BinOp); ok && bo.Op.String() == "<" && bo.X == ssa.Value(ind) {
-					if isFieldLoad(bo.Y, "tail") || isFieldLoad(bo.Y, "count") {
+				if bo, ok := iff.Cond.(*ssa.BinOp); ok && l.Blocks[l.Header.Succs[0]] {
+					// i < n  or  n > i, the loop continuing on the true edge
+					x, y := bo.X, bo.Y
+					if bo.Op.String() == ">" {
+						x, y = y, x
+					}
+					if (bo.Op.String() == "<" || bo.Op.String() == ">") && x == ssa.Value(ind) && (isFieldLoad(y, "tail") || isFieldLoad(y, "count")) {
 						bound = true
 					}
 				}
